@@ -571,11 +571,17 @@ func (vb *valueBuilder) build(term string, t types.Type, depth int) string {
 			vb.fail = err.Error()
 			return "nil"
 		}
-		id, _ := parseSMTInt(tv)
-		if id == 0 {
+		id, idOK := parseSMTInt(tv)
+		if !nonZeroRef(tv) {
 			return "nil"
 		}
+		if !idOK {
+			id = -1 // a type id outside int64: some dynamic type the unit knows nothing about
+		}
 		ct, ok := vc.typeByID[int(id)]
+		if os.Getenv("GOCV_DEBUG_MODEL") != "" {
+			fmt.Fprintf(os.Stderr, "iface %s: type id %d -> %v\n", term, id, ct)
+		}
 		if !ok {
 			// an arbitrary dynamic type: use a string
 			if u.NumMethods() == 0 {
